@@ -275,3 +275,12 @@ def minimum(a, b):
 
 def maximum(a, b):
     return ite(a >= b, a, b)
+
+
+def hexval(c):
+    """value of an ASCII hex digit character code (either case), -1 for any other character.  The symbolic term is built by
+    the same function the a2b_hex / int(x, 16) library models use, so specifications and models agree syntactically"""
+    if not _sym(c):
+        return c - 48 if 48 <= c <= 57 else c - 55 if 65 <= c <= 70 else c - 87 if 97 <= c <= 102 else -1
+    from . import libmodels
+    return V.mk(libmodels.hexval(V.zint(c)))
